@@ -282,6 +282,39 @@ def diffs(spec, n):
     return out, hard
 
 
+def check_override(spec, res):
+    """A custom variable supplied under the name of an input the table lacks
+    (rho0) and a built-in that is computed from it (rho = rho0 (1 + eps)): the
+    custom value is what the step uses, wherever it stands in the list and
+    however the request is split."""
+    from aurel import time as atime
+    fd, data, rows, tvals = build_table(spec, spec['n1'])
+    kw = dict(Lambda=spec['Lambda'], clear_cache_every_nbr_calc=spec['every'])
+
+    def f(rel):
+        return 0.5 + rel['alpha'] ** 2
+
+    runs = {}
+    with common.Quiet():
+        runs['dependent listed first'] = atime.over_time(
+            {k: list(v) for k, v in data.items()}, fd, vars=['rho', {'rho0': f}], verbose=False, **kw)
+        runs['custom listed first'] = atime.over_time(
+            {k: list(v) for k, v in data.items()}, fd, vars=[{'rho0': f}, 'rho'], verbose=False, **kw)
+        two = atime.over_time({k: list(v) for k, v in data.items()}, fd, vars=[{'rho0': f}],
+                              verbose=False, **kw)
+        runs['two calls'] = atime.over_time(two, fd, vars=['rho'], verbose=False, **kw)
+    for lab, T in runs.items():
+        res['observations'] += 1
+        want = 0.5 + np.asarray(T['alpha']) ** 2
+        ok = ('rho' in T and 'rho0' in T and np.array_equal(np.asarray(T['rho0']), want)
+              and np.allclose(np.asarray(T['rho']), want, rtol=1e-13, atol=0))
+        if not ok:
+            common.add_violation(res, "built-in computed from a custom variable ignores it "
+                                      f"({lab})", {"steps": spec['steps']})
+            return
+    res['nontrivial'].append(['override', spec['steps'], spec['every']])
+
+
 def run_case(spec):
     res = common.new_result(spec)
     try:
@@ -311,6 +344,11 @@ def run_case(spec):
                 common.add_violation(res, f"{kind} differs ({what})",
                                      {"label": lab, "err_N": e1, "err_2N": e2, "scale": sc,
                                       "names": spec['names'], "cuts": spec['cuts']})
+    try:
+        check_override(spec, res)
+    except Exception as e:
+        common.add_violation(res, f"over_time raises {type(e).__name__}",
+                             {"err": repr(e)[:300], "scenario": "custom variable under an input name"})
     if res['status'] == 'held':
         kinds = ('custom' if any(nm in CUSTOM for nm in spec['names']) else '') + \
                 ('builtin' if any(nm in BUILTIN for nm in spec['names']) else '')
